@@ -59,6 +59,12 @@ fn wrong_credentials(cfg: &Cfg, rng: &mut Rng) -> Vec<(String, Cfg)> {
                 c.users.clear();
                 c.client_user = None;
                 out.push(("ipsk-as-single-user-key".into(), c));
+                // the server key alone, dressed up with an identity header: the header names nobody (it is the hash of the
+                // server key itself), the request is sealed under the server key. Every current and former user holds
+                // that key; without a registered user key it must not relay.
+                let mut c = cfg.clone();
+                c.users[u].1 = cfg.server_psk.clone();
+                out.push(("server-key-only-with-identity-header-naming-nobody".into(), c));
                 // a user key used as the server key (no identity header)
                 let mut c = cfg.clone();
                 c.server_psk = cfg.users[u].1.clone();
@@ -189,6 +195,22 @@ fn one_case(seed: u64, i: u64, rep: &mut Report) {
         let w = c.write(&payload, &mut rng);
         let class = name.split("-bit-").next().unwrap().to_string() + if name.contains("-bit-") { "-bit-flip" } else { "" };
         cx.must_not_relay(&class, &name, &w, &[]);
+        if name.starts_with("server-key-only-with-identity-header") {
+            if let Proto::Ss(m) = cfg.proto {
+                // the same request with arbitrary bytes / zeros in the identity-header slot
+                for fill in 0..3 {
+                    let mut w2 = w.clone();
+                    let k = m.key_len();
+                    let junk = match fill {
+                        0 => rng.bytes(16),
+                        1 => vec![0u8; 16],
+                        _ => w2[..16].to_vec(),
+                    };
+                    w2[k..k + 16].copy_from_slice(&junk);
+                    cx.must_not_relay("server-key-only-with-junk-identity-header", &format!("fill={fill}"), &w2, &[]);
+                }
+            }
+        }
     }
     // (3) other protocols' valid handshakes
     for other in all_protos() {
@@ -425,6 +447,14 @@ fn udp_case(seed: u64, i: u64, rep: &mut Report) {
         };
         let class = name.split("-bit-").next().unwrap().to_string() + if name.contains("-bit-") { "-bit-flip" } else { "" };
         present(rep, &class, &w);
+        if name.starts_with("server-key-only-with-identity-header") && w.len() > 32 {
+            for fill in 0..2 {
+                let mut w2 = w.clone();
+                let junk = if fill == 0 { rng.bytes(16) } else { vec![0u8; 16] };
+                w2[16..32].copy_from_slice(&junk);
+                present(rep, "server-key-only-with-junk-identity-header", &w2);
+            }
+        }
     }
     rep.distinct.insert(0xE000_0000 + i);
 }
